@@ -141,3 +141,22 @@ func VerifDumpRIBOut(f VerifFamily) []*route.Route {
 	}
 	return f.AdjRIBOut.Dump()
 }
+
+// ---- BMP
+
+// VerifNewBMPRouter creates a BMP router object the way the receiver does for a monitored router.
+func VerifNewBMPRouter(addr net.IP, cfg RouterConfig) *Router {
+	return newRouter(addr, 0, adjRIBInFactory{}, cfg)
+}
+
+// VerifBMPServe runs the router's message loop on the given connection until it ends.
+func VerifBMPServe(r *Router, c net.Conn) error { return r.serve(c) }
+
+// VerifBMPNeighbors lists (vrf id, peer address) of the neighbours the router currently knows.
+func VerifBMPNeighbors(r *Router) [][2]string {
+	var out [][2]string
+	for _, n := range r.neighborManager.list() {
+		out = append(out, [2]string{vrf.RouteDistinguisherHumanReadable(n.vrfID), addrToNetIP(n.peerAddress).String()})
+	}
+	return out
+}
